@@ -641,7 +641,7 @@ impl Transaction {
                 }
                 slip.amount
             })
-            .sum::<Currency>();
+            .fold(0, |total: Currency, amount| total.saturating_add(amount));
 
         let nolan_out = self
             .to
@@ -660,7 +660,7 @@ impl Transaction {
                 }
                 slip.amount
             })
-            .sum::<Currency>();
+            .fold(0, |total: Currency, amount| total.saturating_add(amount));
 
         self.total_in = nolan_in;
         self.total_out = nolan_out;
@@ -1146,6 +1146,27 @@ impl Transaction {
             //
             if !self.validate_routing_path() {
                 error!("ERROR 482033: routing paths do not validate, transaction invalid");
+                return false;
+            }
+
+            //
+            // the totals are kept in the currency type. make sure that the amounts
+            // really fit into it, otherwise the comparison below is meaningless
+            //
+            let nolan_in: u128 = self
+                .from
+                .iter()
+                .filter(|slip| slip.slip_type != SlipType::Bound)
+                .map(|slip| slip.amount as u128)
+                .sum();
+            let nolan_out: u128 = self
+                .to
+                .iter()
+                .filter(|slip| slip.slip_type != SlipType::Bound)
+                .map(|slip| slip.amount as u128)
+                .sum();
+            if nolan_in > Currency::MAX as u128 || nolan_out > Currency::MAX as u128 {
+                error!("ERROR 802395: transaction amounts do not fit the currency type");
                 return false;
             }
 
